@@ -28,7 +28,9 @@ CONSTANTS
     MaxTimer,       \* NAT timer expiries
     SharedPacker,   \* TRUE: every session of the client uses one packer instance (one resolution cache)
     RearmGuard,     \* TRUE: after re-arming the deadline the uplink re-checks that shutdown has not begun
-    Rejected        \* targets the router rejects: a session whose first packet names one fails to initialise
+    Rejected,       \* targets the router rejects: a session whose first packet names one fails to initialise
+    Keyed           \* "addr": sessions keyed by client address (NAT relays); "sid": keyed by client session id, following
+                    \* the client's latest address (Shadowsocks 2022 session relays)
 
 VARIABLES
     table,      \* keys in the relay's table (guarded by the relay mutex)
@@ -43,6 +45,8 @@ VARIABLES
     dl,         \* natConn read deadline: "none","future","past"
     sock,       \* natConn: "none","open","closed"
     pk,         \* packer resolution cache per owner: [dom, ip]
+    cli,        \* the client's current address (1 or 2); only "sid" relays let a session move
+    seen,       \* the client address the relay has recorded for the session (source of the last accepted packet)
     has,        \* this generation of the session has sent a datagram (so a reply can come back to its socket)
     sent,       \* ghost/output: datagrams that left the relay  [s, t, to]
     back,       \* ghost/output: replies delivered to clients  [s]
@@ -52,7 +56,7 @@ VARIABLES
     act
 
 None == "-"
-sv == <<table, state, ch, chOpen, ipc, upc, first, cur, rip, dest, dl, sock, pk, has, sent, back, spc, rloop, nsend, nreply, ntimer>>
+sv == <<table, state, ch, chOpen, ipc, upc, first, cur, rip, dest, dl, sock, pk, cli, seen, has, sent, back, spc, rloop, nsend, nreply, ntimer>>
 vars == <<sv, act>>
 
 Owner(s) == IF SharedPacker THEN "shared" ELSE s
@@ -67,6 +71,7 @@ Init ==
     /\ cur = [s \in Sess |-> None] /\ rip = [s \in Sess |-> None] /\ dest = [s \in Sess |-> None]
     /\ dl = [s \in Sess |-> "none"] /\ sock = [s \in Sess |-> "none"]
     /\ pk = [o \in Owners |-> [dom |-> None, ip |-> None]]
+    /\ cli = [s \in Sess |-> 1] /\ seen = [s \in Sess |-> 0]
     /\ has = [s \in Sess |-> FALSE]
     /\ sent = {} /\ back = {}
     /\ spc = "idle" /\ rloop = "run"
@@ -81,8 +86,8 @@ RecvPkt(s, t) ==
     /\ nsend' = [nsend EXCEPT ![s] = @ + 1]
     /\ IF s \in table
          THEN /\ IF Len(ch[s]) < ChanCap
-                   THEN ch' = [ch EXCEPT ![s] = Append(@, t)] /\ act' = [n |-> "RecvPkt", s |-> s, t |-> t, out |-> "queued"]
-                   ELSE ch' = ch /\ act' = [n |-> "RecvPkt", s |-> s, t |-> t, out |-> "dropped"]
+                   THEN ch' = [ch EXCEPT ![s] = Append(@, t)] /\ act' = [n |-> "RecvPkt", s |-> s, t |-> t, out |-> "queued", from |-> cli[s]]
+                   ELSE ch' = ch /\ act' = [n |-> "RecvPkt", s |-> s, t |-> t, out |-> "dropped", from |-> cli[s]]
               /\ UNCHANGED <<table, state, chOpen, ipc, upc, dl, sock, first>>
          ELSE /\ Gone(s)       \* (the model keeps one generation per key at a time)
               /\ table' = table \cup {s}
@@ -91,8 +96,9 @@ RecvPkt(s, t) ==
               /\ ipc' = [ipc EXCEPT ![s] = "init"] /\ upc' = [upc EXCEPT ![s] = "none"]
               /\ dl' = [dl EXCEPT ![s] = "none"] /\ sock' = [sock EXCEPT ![s] = "none"]
               /\ first' = [first EXCEPT ![s] = t]
-              /\ act' = [n |-> "RecvPkt", s |-> s, t |-> t, out |-> "new"]
+              /\ act' = [n |-> "RecvPkt", s |-> s, t |-> t, out |-> "new", from |-> cli[s]]
     /\ has' = IF s \in table THEN has ELSE [has EXCEPT ![s] = FALSE]
+    /\ seen' = [seen EXCEPT ![s] = cli[s]] /\ cli' = cli
     /\ UNCHANGED <<cur, rip, dest, pk, sent, back, spc, rloop, nreply, ntimer>>
 
 \* a datagram that does not parse / authenticate: nothing changes
@@ -101,18 +107,32 @@ Garbage(s) ==
     /\ UNCHANGED sv
     /\ act' = [n |-> "Garbage", s |-> s]
 
+\* the client of a session-id keyed relay starts sending from another address (roaming, NAT rebinding)
+Move(s) ==
+    /\ Keyed = "sid" /\ cli[s] = 1
+    /\ cli' = [cli EXCEPT ![s] = 2]
+    /\ UNCHANGED <<table, state, ch, chOpen, ipc, upc, first, cur, rip, dest, dl, sock, pk, seen, has, sent, back, spc, rloop, nsend, nreply, ntimer>>
+    /\ act' = [n |-> "Move", s |-> s]
+
+\* a datagram from a foreign address that carries a live session's id but does not authenticate (forged or
+\* corrupted replay): it is dropped and in particular does not redirect the session's replies
+Forged(s) ==
+    /\ Keyed = "sid" /\ rloop = "run" /\ s \in table
+    /\ UNCHANGED sv
+    /\ act' = [n |-> "Forged", s |-> s]
+
 \* I: GetUDPClient, NewSession, ListenUDP, SetReadDeadline(now+natTimeout), NewPacker
 InitOk(s) ==
     /\ ipc[s] = "init" /\ first[s] \notin Rejected
     /\ sock' = [sock EXCEPT ![s] = "open"] /\ dl' = [dl EXCEPT ![s] = "future"]
     /\ ipc' = [ipc EXCEPT ![s] = "swap"]
-    /\ UNCHANGED <<table, state, ch, chOpen, upc, first, cur, rip, dest, pk, has, sent, back, spc, rloop, nsend, nreply, ntimer>>
+    /\ UNCHANGED <<table, state, ch, chOpen, upc, first, cur, rip, dest, pk, cli, seen, has, sent, back, spc, rloop, nsend, nreply, ntimer>>
     /\ act' = [n |-> "InitOk", s |-> s]
 
 InitFail(s) ==
     /\ ipc[s] = "init" /\ first[s] \in Rejected
     /\ ipc' = [ipc EXCEPT ![s] = "cleanup"]
-    /\ UNCHANGED <<table, state, ch, chOpen, upc, first, cur, rip, dest, dl, sock, pk, has, sent, back, spc, rloop, nsend, nreply, ntimer>>
+    /\ UNCHANGED <<table, state, ch, chOpen, upc, first, cur, rip, dest, dl, sock, pk, cli, seen, has, sent, back, spc, rloop, nsend, nreply, ntimer>>
     /\ act' = [n |-> "InitFail", s |-> s]
 
 \* I: oldState := entry.state.Swap(natConn)
@@ -128,7 +148,7 @@ Swap(s) ==
               /\ sock' = [sock EXCEPT ![s] = "closed"]
               /\ ipc' = [ipc EXCEPT ![s] = "cleanup"]
               /\ act' = [n |-> "Swap", s |-> s, out |-> "aborted"]
-    /\ UNCHANGED <<table, ch, chOpen, first, cur, rip, dest, dl, pk, has, sent, back, spc, rloop, nsend, nreply, ntimer>>
+    /\ UNCHANGED <<table, ch, chOpen, first, cur, rip, dest, dl, pk, cli, seen, has, sent, back, spc, rloop, nsend, nreply, ntimer>>
 
 \* U: queuedPacket := <-natConnSendCh
 UpDequeue(s) ==
@@ -137,21 +157,21 @@ UpDequeue(s) ==
     /\ IF Head(ch[s]) \in Domains
          THEN upc' = [upc EXCEPT ![s] = "chk"] /\ dest' = dest
          ELSE upc' = [upc EXCEPT ![s] = "send"] /\ dest' = [dest EXCEPT ![s] = Head(ch[s])]
-    /\ UNCHANGED <<table, state, chOpen, ipc, first, rip, dl, sock, pk, has, sent, back, spc, rloop, nsend, nreply, ntimer>>
+    /\ UNCHANGED <<table, state, chOpen, ipc, first, rip, dl, sock, pk, cli, seen, has, sent, back, spc, rloop, nsend, nreply, ntimer>>
     /\ act' = [n |-> "UpDequeue", s |-> s, t |-> Head(ch[s])]
 
 \* U: the channel is closed and drained: natConn.Close(), clientSession.Close()
 UpClosed(s) ==
     /\ upc[s] = "idle" /\ ch[s] = <<>> /\ ~chOpen[s]
     /\ upc' = [upc EXCEPT ![s] = "done"] /\ sock' = [sock EXCEPT ![s] = "closed"]
-    /\ UNCHANGED <<table, state, ch, chOpen, ipc, first, cur, rip, dest, dl, pk, has, sent, back, spc, rloop, nsend, nreply, ntimer>>
+    /\ UNCHANGED <<table, state, ch, chOpen, ipc, first, cur, rip, dest, dl, pk, cli, seen, has, sent, back, spc, rloop, nsend, nreply, ntimer>>
     /\ act' = [n |-> "UpClosed", s |-> s]
 
 \* DirectPacketClientPacker.updateDomainIPCache / PackInPlace, four steps
 PackChk(s) ==
     /\ upc[s] = "chk"
     /\ upc' = [upc EXCEPT ![s] = IF pk[Owner(s)].dom = cur[s] THEN "lod" ELSE "res"]
-    /\ UNCHANGED <<table, state, ch, chOpen, ipc, first, cur, rip, dest, dl, sock, pk, has, sent, back, spc, rloop, nsend, nreply, ntimer>>
+    /\ UNCHANGED <<table, state, ch, chOpen, ipc, first, cur, rip, dest, dl, sock, pk, cli, seen, has, sent, back, spc, rloop, nsend, nreply, ntimer>>
     /\ act' = [n |-> "PackChk", s |-> s, out |-> IF pk[Owner(s)].dom = cur[s] THEN "hit" ELSE "miss"]
 \* ResolveIP(ctx, ...): the manager's context is cancelled when shutdown begins, the lookup then fails,
 \* the packet is dropped ("Failed to pack packet") and the uplink goes back to the channel without re-arming
@@ -162,16 +182,16 @@ PackRes(s) ==
               /\ act' = [n |-> "PackRes", s |-> s, out |-> "ok"]
          ELSE /\ rip' = rip /\ upc' = [upc EXCEPT ![s] = "idle"]
               /\ act' = [n |-> "PackRes", s |-> s, out |-> "cancelled"]
-    /\ UNCHANGED <<table, state, ch, chOpen, ipc, first, cur, dest, dl, sock, pk, has, sent, back, spc, rloop, nsend, nreply, ntimer>>
+    /\ UNCHANGED <<table, state, ch, chOpen, ipc, first, cur, dest, dl, sock, pk, cli, seen, has, sent, back, spc, rloop, nsend, nreply, ntimer>>
 PackSto(s) ==
     /\ upc[s] = "sto"
     /\ pk' = [pk EXCEPT ![Owner(s)] = [dom |-> cur[s], ip |-> rip[s]]] /\ upc' = [upc EXCEPT ![s] = "lod"]
-    /\ UNCHANGED <<table, state, ch, chOpen, ipc, first, cur, rip, dest, dl, sock, has, sent, back, spc, rloop, nsend, nreply, ntimer>>
+    /\ UNCHANGED <<table, state, ch, chOpen, ipc, first, cur, rip, dest, dl, sock, cli, seen, has, sent, back, spc, rloop, nsend, nreply, ntimer>>
     /\ act' = [n |-> "PackSto", s |-> s]
 PackLod(s) ==
     /\ upc[s] = "lod"
     /\ dest' = [dest EXCEPT ![s] = pk[Owner(s)].ip] /\ upc' = [upc EXCEPT ![s] = "send"]
-    /\ UNCHANGED <<table, state, ch, chOpen, ipc, first, cur, rip, dl, sock, pk, has, sent, back, spc, rloop, nsend, nreply, ntimer>>
+    /\ UNCHANGED <<table, state, ch, chOpen, ipc, first, cur, rip, dl, sock, pk, cli, seen, has, sent, back, spc, rloop, nsend, nreply, ntimer>>
     /\ act' = [n |-> "PackLod", s |-> s, out |-> pk[Owner(s)].ip]
 
 \* U: natConn.WriteToUDPAddrPort / WriteMsgs
@@ -180,7 +200,7 @@ UpSend(s) ==
     /\ sent' = sent \cup {[s |-> s, t |-> cur[s], to |-> dest[s]]}
     /\ has' = [has EXCEPT ![s] = TRUE]
     /\ upc' = [upc EXCEPT ![s] = "rearm"]
-    /\ UNCHANGED <<table, state, ch, chOpen, ipc, first, cur, rip, dest, dl, sock, pk, back, spc, rloop, nsend, nreply, ntimer>>
+    /\ UNCHANGED <<table, state, ch, chOpen, ipc, first, cur, rip, dest, dl, sock, pk, cli, seen, back, spc, rloop, nsend, nreply, ntimer>>
     /\ act' = [n |-> "UpSend", s |-> s, t |-> cur[s], to |-> dest[s]]
 
 \* U: natConn.SetReadDeadline(now + natTimeout)  [+ the guard, when present]
@@ -188,7 +208,7 @@ UpRearm(s) ==
     /\ upc[s] = "rearm"
     /\ dl' = [dl EXCEPT ![s] = IF RearmGuard /\ state[s] = "srv" THEN "past" ELSE "future"]
     /\ upc' = [upc EXCEPT ![s] = "idle"]
-    /\ UNCHANGED <<table, state, ch, chOpen, ipc, first, cur, rip, dest, sock, pk, has, sent, back, spc, rloop, nsend, nreply, ntimer>>
+    /\ UNCHANGED <<table, state, ch, chOpen, ipc, first, cur, rip, dest, sock, pk, cli, seen, has, sent, back, spc, rloop, nsend, nreply, ntimer>>
     /\ act' = [n |-> "UpRearm", s |-> s]
 
 \* I (downlink): a reply arrives on natConn while the deadline has not passed
@@ -196,27 +216,27 @@ DlRecv(s) ==
     /\ ipc[s] = "read" /\ dl[s] = "future" /\ nreply[s] < MaxReply /\ has[s]
     /\ nreply' = [nreply EXCEPT ![s] = @ + 1]
     /\ ipc' = [ipc EXCEPT ![s] = "reply"]
-    /\ UNCHANGED <<table, state, ch, chOpen, upc, first, cur, rip, dest, dl, sock, pk, has, sent, back, spc, rloop, nsend, ntimer>>
+    /\ UNCHANGED <<table, state, ch, chOpen, upc, first, cur, rip, dest, dl, sock, pk, cli, seen, has, sent, back, spc, rloop, nsend, ntimer>>
     /\ act' = [n |-> "DlRecv", s |-> s]
 \* I (downlink): unpack, pack for the client, serverConn.WriteMsgUDPAddrPort to the owner of the session
 DlSendBack(s) ==
     /\ ipc[s] = "reply"
-    /\ back' = back \cup {s}
+    /\ back' = back \cup {[s |-> s, to |-> seen[s]]}
     /\ ipc' = [ipc EXCEPT ![s] = "read"]
-    /\ UNCHANGED <<table, state, ch, chOpen, upc, first, cur, rip, dest, dl, sock, pk, has, sent, spc, rloop, nsend, nreply, ntimer>>
-    /\ act' = [n |-> "DlSendBack", s |-> s]
+    /\ UNCHANGED <<table, state, ch, chOpen, upc, first, cur, rip, dest, dl, sock, pk, cli, seen, has, sent, spc, rloop, nsend, nreply, ntimer>>
+    /\ act' = [n |-> "DlSendBack", s |-> s, to |-> seen[s]]
 \* I (downlink): the read returns os.ErrDeadlineExceeded
 DlTimeout(s) ==
     /\ ipc[s] = "read" /\ dl[s] = "past"
     /\ ipc' = [ipc EXCEPT ![s] = "cleanup"]
-    /\ UNCHANGED <<table, state, ch, chOpen, upc, first, cur, rip, dest, dl, sock, pk, has, sent, back, spc, rloop, nsend, nreply, ntimer>>
+    /\ UNCHANGED <<table, state, ch, chOpen, upc, first, cur, rip, dest, dl, sock, pk, cli, seen, has, sent, back, spc, rloop, nsend, nreply, ntimer>>
     /\ act' = [n |-> "DlTimeout", s |-> s]
 
 \* the NAT timeout elapses without the uplink re-arming (only before shutdown, see StopTerminates)
 TimerFire(s) ==
     /\ spc = "idle" /\ dl[s] = "future" /\ ntimer < MaxTimer
     /\ dl' = [dl EXCEPT ![s] = "past"] /\ ntimer' = ntimer + 1
-    /\ UNCHANGED <<table, state, ch, chOpen, ipc, upc, first, cur, rip, dest, sock, pk, has, sent, back, spc, rloop, nsend, nreply>>
+    /\ UNCHANGED <<table, state, ch, chOpen, ipc, upc, first, cur, rip, dest, sock, pk, cli, seen, has, sent, back, spc, rloop, nsend, nreply>>
     /\ act' = [n |-> "TimerFire", s |-> s]
 
 \* I: deferred: s.mu.Lock(); close(natConnSendCh); delete(s.table, key); s.mu.Unlock(); drain if the uplink never ran
@@ -226,19 +246,19 @@ Cleanup(s) ==
     /\ ch' = IF upc[s] = "none" THEN [ch EXCEPT ![s] = <<>>] ELSE ch
     /\ sock' = IF upc[s] = "none" /\ sock[s] = "open" THEN [sock EXCEPT ![s] = "closed"] ELSE sock
     /\ ipc' = [ipc EXCEPT ![s] = "done"]
-    /\ UNCHANGED <<state, upc, first, cur, rip, dest, dl, pk, has, sent, back, spc, rloop, nsend, nreply, ntimer>>
+    /\ UNCHANGED <<state, upc, first, cur, rip, dest, dl, pk, cli, seen, has, sent, back, spc, rloop, nsend, nreply, ntimer>>
     /\ act' = [n |-> "Cleanup", s |-> s]
 
 \* Stop: serverConn.SetReadDeadline(past); the receive loop ends
 StopBegin ==
     /\ spc = "idle"
     /\ spc' = "waitrecv"
-    /\ UNCHANGED <<table, state, ch, chOpen, ipc, upc, first, cur, rip, dest, dl, sock, pk, has, sent, back, rloop, nsend, nreply, ntimer>>
+    /\ UNCHANGED <<table, state, ch, chOpen, ipc, upc, first, cur, rip, dest, dl, sock, pk, cli, seen, has, sent, back, rloop, nsend, nreply, ntimer>>
     /\ act' = [n |-> "StopBegin"]
 RecvLoopEnd ==
     /\ spc = "waitrecv" /\ rloop = "run"
     /\ rloop' = "done"
-    /\ UNCHANGED <<table, state, ch, chOpen, ipc, upc, first, cur, rip, dest, dl, sock, pk, has, sent, back, spc, nsend, nreply, ntimer>>
+    /\ UNCHANGED <<table, state, ch, chOpen, ipc, upc, first, cur, rip, dest, dl, sock, pk, cli, seen, has, sent, back, spc, nsend, nreply, ntimer>>
     /\ act' = [n |-> "RecvLoopEnd"]
 \* s.mwg.Wait() returned; under s.mu: swap every entry's state, force initialised natConns' deadline into the past
 StopSwapAll ==
@@ -246,13 +266,13 @@ StopSwapAll ==
     /\ state' = [s \in Sess |-> IF s \in table THEN "srv" ELSE state[s]]
     /\ dl' = [s \in Sess |-> IF s \in table /\ state[s] = "nat" THEN "past" ELSE dl[s]]
     /\ spc' = "waitall"
-    /\ UNCHANGED <<table, ch, chOpen, ipc, upc, first, cur, rip, dest, sock, pk, has, sent, back, rloop, nsend, nreply, ntimer>>
+    /\ UNCHANGED <<table, ch, chOpen, ipc, upc, first, cur, rip, dest, sock, pk, cli, seen, has, sent, back, rloop, nsend, nreply, ntimer>>
     /\ act' = [n |-> "StopSwapAll"]
 \* s.wg.Wait() returned; listeners closed
 StopEnd ==
     /\ spc = "waitall" /\ \A s \in Sess : Gone(s)
     /\ spc' = "done"
-    /\ UNCHANGED <<table, state, ch, chOpen, ipc, upc, first, cur, rip, dest, dl, sock, pk, has, sent, back, rloop, nsend, nreply, ntimer>>
+    /\ UNCHANGED <<table, state, ch, chOpen, ipc, upc, first, cur, rip, dest, dl, sock, pk, cli, seen, has, sent, back, rloop, nsend, nreply, ntimer>>
     /\ act' = [n |-> "StopEnd"]
 
 SessionStep(s) ==
@@ -262,7 +282,7 @@ SessionStep(s) ==
 
 Next ==
     \/ \E s \in Sess, t \in Targets : RecvPkt(s, t)
-    \/ \E s \in Sess : SessionStep(s) \/ DlRecv(s) \/ TimerFire(s)
+    \/ \E s \in Sess : SessionStep(s) \/ DlRecv(s) \/ TimerFire(s) \/ Move(s) \/ Forged(s)
     \/ StopBegin \/ RecvLoopEnd \/ StopSwapAll \/ StopEnd
 
 \* goroutine steps are weakly fair; clients, targets and timers are not obliged to act
@@ -292,7 +312,7 @@ SocketReleased == \A s \in Sess : (ipc[s] = "done" /\ upc[s] \in {"none", "done"
 RightDestination == \A x \in sent : x.to = IpOf(x.t)
 
 \* C11: replies go to the client that owns the session (by construction of DlSendBack; the replay checks the real thing)
-RepliesToOwner == \A s \in back : \E x \in sent : x.s = s
+RepliesToOwner == \A b \in back : (\E x \in sent : x.s = b.s) /\ b.to \in {1, 2}
 
 \* C12 liveness: once Stop has begun it returns, without any NAT timer firing (TimerFire is disabled after StopBegin)
 StopTerminates == (spc # "idle") ~> (spc = "done")
